@@ -1026,8 +1026,32 @@ def k_c18_trie_split(ops, lines):
     return False
 
 
+def k_c17_trie_ndel_prefix(ops, lines):
+    """K_C17_trie_ndel_prefix (D84): trie; a notify_del (ndel / ndel2) names a key K that is a proper
+    prefix of a key K' on which a notify_add succeeded earlier in the case (since the last destroy):
+    trie_notify_del looks K up without exact match, so when K ends inside the segment of K''s node the
+    call is accepted and removes K''s notifiers."""
+    if impl_of(ops) != "trie":
+        return False
+    tr, _ = parse_transcript(ops, lines)
+    reg = set()
+    for t, evs, res in tr:
+        if res is None:
+            break
+        if t[0] == "nadd" and t[1] != "*" and res == ["0"]:
+            reg.add(unhex(t[1]))
+        elif t[0] in ("ndel", "ndel2") and t[1] != "*":
+            k = unhex(t[1])
+            if any(len(q) > len(k) and q.startswith(k) for q in reg):
+                return True
+        elif t[0] == "destroy" and res == ["ok"]:
+            reg.clear()
+    return False
+
+
 # class name (as in KNOWN_FINDINGS.txt `class=`) -> predicate(ops, transcript lines)
-CLASSES = {"K_C18_ht": k_c18_ht, "K_C18_sl": k_c18_sl, "K_C18_trie_split": k_c18_trie_split}
+CLASSES = {"K_C18_ht": k_c18_ht, "K_C18_sl": k_c18_sl, "K_C18_trie_split": k_c18_trie_split,
+           "K_C17_trie_ndel_prefix": k_c17_trie_ndel_prefix}
 
 
 # Fallback for findings whose line is not (yet) in KNOWN_FINDINGS.txt (that file is maintained by the
@@ -1038,6 +1062,10 @@ def _pf(prop, ident, cls, witness, text):
 
 
 PROPOSED_FINDINGS = [
+    _pf("C17", "KF-C17-trie-ndel-prefix", "K_C17_trie_ndel_prefix", "corpus/C17/trie-d84-ndel-prefix-match.ops",
+        "D84: trie_notify_del looks the key up without exact match: qb_map_notify_del with a key that only names a proper "
+        "prefix of a key carrying notifiers (ending inside that node's segment) returns 0 instead of -ENOENT and removes the "
+        "other key's notifiers, whose later events are then not delivered (repair: fixes/D84-trie-notify-del-exact.patch)"),
     _pf("C18", "KF-C18-sl-takeover", "K_C18_sl", "corpus/C18/sl-d16-shared-forward-array.ops",
         "D16: skiplist_rm frees a forward array that a removed-but-referenced node still shares (takeover-and-repoint "
         "passes the array to the predecessor, the next removal next to it frees it): heap-use-after-free in "
